@@ -4,7 +4,7 @@
    exhibits it (DESIGN 3/C13, 7); the race-detector build of the real loops is evidence, not proof. *)
 From Coq Require Import String List Bool Arith.
 From Coq Require Import NArith.
-From Verif Require Import Model.StopProto Proofs.StopProtoProofs gen.BlockPoints Check.BlockPointsLemmas Check.StopCheck.
+From Verif Require Import Model.StopProto Proofs.StopProtoProofs gen.BlockPoints Check.BlockPointsLemmas Check.StopCheck Check.StopBefore.
 From Verif Require Import Model.Conc Proofs.ConcProofs.
 Import ListNotations.
 Open Scope nat_scope.
@@ -26,69 +26,66 @@ Theorem C13_prompt_stop_partial : forall (t : list bpoint) (reach : list string)
 Proof. exact prompt_stop_activity. Qed.
 Print Assumptions C13_prompt_stop_partial.
 
-(* On the table regenerated from /repo/block/*.go by this run: the header submission loop, the data
-   submission loop and the reaper stop promptly, from every blocking operation, for every environment. *)
+(* On the table regenerated from /repo/block/*.go by this run (after the repairs ca974a2, c53a06a, 03584e7): eight
+   of the nine loops stop promptly, from every blocking operation, for every environment - no assumption. *)
 Theorem C13_prompt_stop_today_partial : forall (root : string) (reach : list string),
-  In (root, reach) loop_reach -> In root ["HeaderSubmissionLoop"; "DataSubmissionLoop"; "Reaper.Start"] ->
+  In (root, reach) loop_reach ->
+  In root ["SyncLoop"; "RetrieveLoop"; "HeaderStoreRetrieveLoop"; "DataStoreRetrieveLoop";
+           "HeaderSubmissionLoop"; "DataSubmissionLoop"; "DAIncluderLoop"; "Reaper.Start"] ->
   forall (ms : list move) (p : bpoint),
     In p (activity_points block_points reach) -> others ms < length ms ->
     run_cancelled (activity_points block_points reach) (Running p) ms = Returned.
 Proof. exact prompt_stop_today. Qed.
 Print Assumptions C13_prompt_stop_today_partial.
 
+(* All NINE loops, AggregationLoop included, under one named assumption on a collaborator: the two broadcasters
+   return once the context they are given (the errgroup's, a child of the loop's) is done, so that
+   publishBlockInternal's g.Wait - the only operation the table still lists as not cancellable - is cancellable by
+   delegation.  [delegated] changes exactly that one entry.  The assumption is tested by the harness (scenarios
+   in-flight-bcast.WriteToStoreAndBroadcast:header / :data and broadcast-stalled), not proved. *)
+Theorem C13_prompt_stop_all_loops_partial : forall (root : string) (reach : list string),
+  In (root, reach) loop_reach ->
+  forall (ms : list move) (p : bpoint),
+    In p (activity_points (delegated block_points) reach) -> others ms < length ms ->
+    run_cancelled (activity_points (delegated block_points) reach) (Running p) ms = Returned.
+Proof. exact prompt_stop_all_delegated. Qed.
+Print Assumptions C13_prompt_stop_all_loops_partial.
+
 (* The operations that are NOT cancellable in the source of this run are exactly these (function, kind,
-   channel / call text — never line numbers); a new one, a removed one or a changed one breaks the equality. *)
+   channel / call text - never line numbers); a new one or a changed one breaks the equality. *)
 Theorem C13_non_cancellable_exact_partial :
-  map describe (non_cancellable block_points) =
-  [ ("AggregationLoop", "sleep", "delay");
-    ("AggregationLoop", "send", "errCh");
-    ("AggregationLoop", "send", "errCh");
-    ("publishBlockInternal", "wait", "g.Wait");
-    ("SyncLoop", "send", "errCh");
-    ("SyncLoop", "send", "errCh");
-    ("SyncLoop", "send", "errCh");
-    ("handlePotentialData", "send", "m.dataInCh");
-    ("handlePotentialHeader", "send", "m.headerInCh");
-    ("HeaderStoreRetrieveLoop", "send", "m.headerInCh");
-    ("DataStoreRetrieveLoop", "send", "m.dataInCh");
-    ("DAIncluderLoop", "send", "errCh");
-    ("DAIncluderLoop", "send", "errCh") ].
-Proof. exact non_cancellable_today. Qed.
+  map describe (non_cancellable block_points) = [ ("publishBlockInternal", "wait", "g.Wait") ]
+  /\ length (filter is_broadcast_wait block_points) = 1.
+Proof. exact (conj non_cancellable_today (proj2 delegated_guard)). Qed.
 Print Assumptions C13_non_cancellable_exact_partial.
 
 (* which loops the guard of C13_prompt_stop_partial covers in the source of this run; all nine loop roots exist *)
 Theorem C13_loops_covered_partial :
   map (fun r => (fst r, all_cancellable block_points (snd r))) loop_reach =
-  [ ("AggregationLoop", false); ("SyncLoop", false); ("RetrieveLoop", false);
-    ("HeaderStoreRetrieveLoop", false); ("DataStoreRetrieveLoop", false);
+  [ ("AggregationLoop", false); ("SyncLoop", true); ("RetrieveLoop", true);
+    ("HeaderStoreRetrieveLoop", true); ("DataStoreRetrieveLoop", true);
     ("HeaderSubmissionLoop", true); ("DataSubmissionLoop", true);
-    ("DAIncluderLoop", false); ("Reaper.Start", true) ].
+    ("DAIncluderLoop", true); ("Reaper.Start", true) ].
 Proof. exact loops_cancellable_today. Qed.
 Print Assumptions C13_loops_covered_partial.
 
-(* An operation that is not cancellable keeps its loop for ever under the environment that never completes
-   it — for every such operation of the regenerated table. *)
+(* What the assumption above is needed for.  In the model an operation that is not cancellable keeps its loop for
+   ever under the environment that never completes it; of today's table that is g.Wait alone, i.e. WITHOUT the
+   assumption on the broadcasters the worded property is false of the model (AggregationLoop parked in g.Wait
+   while a broadcaster never returns).  On the real code this is a hang only with a broadcaster that ignores its
+   context; with broadcasters that honour it the loop returns (harness) - it is not listed as a finding. *)
 Theorem C13_listed_can_hang_refuted : forall (root : string) (reach : list string) (p : bpoint),
   In (root, reach) loop_reach -> In p (activity_points block_points reach) -> bp_cancellable p = false ->
   forall n, run_cancelled (activity_points block_points reach) (Running p) (repeat block_forever n) = Running p.
 Proof. exact listed_can_hang. Qed.
 Print Assumptions C13_listed_can_hang_refuted.
 
-(* The property as worded — every activity returns promptly whatever the environment — is false of the
-   model of today's source (witness: AggregationLoop parked in time.Sleep(delay)); one witness per kind. *)
 Theorem C13_prompt_stop_refuted :
   ~ (forall root reach, In (root, reach) loop_reach ->
      forall ms p, In p (activity_points block_points reach) -> others ms < length ms ->
                   run_cancelled (activity_points block_points reach) (Running p) ms = Returned).
 Proof. exact full_prompt_stop_false. Qed.
 Print Assumptions C13_prompt_stop_refuted.
-
-Theorem C13_witness_per_kind_refuted :
-  hangs_once "AggregationLoop" "AggregationLoop" "sleep" "delay" = true /\
-  hangs_once "RetrieveLoop" "handlePotentialHeader" "send" "m.headerInCh" = true /\
-  hangs_once "AggregationLoop" "publishBlockInternal" "wait" "g.Wait" = true.
-Proof. exact witnesses_hang. Qed.
-Print Assumptions C13_witness_per_kind_refuted.
 
 (* ---- part A: invariants under every interleaving ---------------------------------------------------------
    Model/Conc.v: block producer, header submitter, data submitter and DA-includer of an aggregator as programs
@@ -164,3 +161,38 @@ Example ex_sched_reaches :
   (ht s, wmv s Hdr, wmv s Dat, wmp s Hdr, di s, pdi s, fin s) = (1, 1, 1, 1, 1, 1, 1)%N
   /\ blk s 2 <> None /\ pp (run init ex_sched) <> P0.
 Proof. vm_compute. repeat split; discriminate. Qed.
+
+(* ---- the defects that were repaired, over the FROZEN table generated before the repairs (Check/StopBefore.v) ---- *)
+Example before_the_repair_non_cancellable :
+  map describe (non_cancellable block_points_before) =
+  [ ("AggregationLoop", "sleep", "delay");
+    ("AggregationLoop", "send", "errCh"); ("AggregationLoop", "send", "errCh");
+    ("publishBlockInternal", "wait", "g.Wait");
+    ("SyncLoop", "send", "errCh"); ("SyncLoop", "send", "errCh"); ("SyncLoop", "send", "errCh");
+    ("handlePotentialData", "send", "m.dataInCh"); ("handlePotentialHeader", "send", "m.headerInCh");
+    ("HeaderStoreRetrieveLoop", "send", "m.headerInCh"); ("DataStoreRetrieveLoop", "send", "m.dataInCh");
+    ("DAIncluderLoop", "send", "errCh"); ("DAIncluderLoop", "send", "errCh") ].
+Proof. vm_compute. reflexivity. Qed.
+Example before_the_repair_loops :
+  map (fun r => (fst r, all_cancellable block_points_before (snd r))) loop_reach_before =
+  [ ("AggregationLoop", false); ("SyncLoop", false); ("RetrieveLoop", false);
+    ("HeaderStoreRetrieveLoop", false); ("DataStoreRetrieveLoop", false);
+    ("HeaderSubmissionLoop", true); ("DataSubmissionLoop", true);
+    ("DAIncluderLoop", false); ("Reaper.Start", true) ].
+Proof. vm_compute. reflexivity. Qed.
+(* one hang per kind of defect, each confirmed on the real loops at the time (findings, now fixed) *)
+Example before_the_repair_hangs :
+  let h := hangs_once_in block_points_before loop_reach_before in
+  h "AggregationLoop" "AggregationLoop" "sleep" "delay" = true /\
+  h "AggregationLoop" "AggregationLoop" "send" "errCh" = true /\
+  h "SyncLoop" "SyncLoop" "send" "errCh" = true /\
+  h "DAIncluderLoop" "DAIncluderLoop" "send" "errCh" = true /\
+  h "RetrieveLoop" "handlePotentialHeader" "send" "m.headerInCh" = true /\
+  h "RetrieveLoop" "handlePotentialData" "send" "m.dataInCh" = true /\
+  h "HeaderStoreRetrieveLoop" "HeaderStoreRetrieveLoop" "send" "m.headerInCh" = true /\
+  h "DataStoreRetrieveLoop" "DataStoreRetrieveLoop" "send" "m.dataInCh" = true.
+Proof. vm_compute. repeat split; reflexivity. Qed.
+(* and none of them is in today's table any more *)
+Example after_the_repair_none_of_them :
+  existsb (fun p => String.eqb (bp_kind p) "sleep" || (String.eqb (bp_kind p) "send")) block_points = false.
+Proof. vm_compute. reflexivity. Qed.
